@@ -4,3 +4,4 @@
 -/
 import RosuModel.Props.C15Velocity
 import RosuModel.Props.C15Ieee
+import RosuModel.Props.C15IeeeDecoded
